@@ -22,6 +22,19 @@ def divEntry (shape : List Nat) (h : List Rat) (c f : Nat) : Rat :=
   (if c = (conn shape f).1 then area h (faceAxis shape f) else 0) +
   (if c = (conn shape f).2 then -area h (faceAxis shape f) else 0)
 
+/-! `FVDivergence.__init__` as coded: COO triplets `t = 0 … 2·num_faces-1`
+(`data = area·tile([1,-1])`, `row = ravel(connectivity)`, `col = repeat(arange(num_faces), 2)`), summed into a matrix -/
+
+def tripRow (shape : List Nat) (t : Nat) : Nat := if t % 2 = 0 then (conn shape (t / 2)).1 else (conn shape (t / 2)).2
+def tripCol (t : Nat) : Nat := t / 2
+def tripData (shape : List Nat) (h : List Rat) (t : Nat) : Rat :=
+  area h (faceAxis shape (t / 2)) * (if t % 2 = 0 then 1 else -1)
+
+/-- the assembled matrix, row-major dense (`entry (c, f)` at `c·num_faces + f`): zeros, then every triplet added -/
+def divAssembled (shape : List Nat) (h : List Rat) : List Rat :=
+  accumN (List.replicate (numCells shape * numFaces shape) 0)
+    (fun t => tripRow shape t * numFaces shape + tripCol t) (tripData shape h) (2 * numFaces shape)
+
 /-- `(FVDivergence.mat @ U)[c]` -/
 def divApply (shape : List Nat) (h : List Rat) (U : Nat → Rat) (c : Nat) : Rat :=
   sumTo (numFaces shape) (fun f => divEntry shape h c f * U f)
@@ -48,21 +61,33 @@ def massEntry (h : List Rat) (i j : Nat) : Rat := if i = j then vol h else 0
 def faceToCell (shape : List Nat) (U : Nat → Rat) (pt : List Rat) (idx : List Nat) (a : Nat) : Rat :=
   pt.getD a 0 * uHi shape U a idx + (1 - pt.getD a 0) * uLo shape U a idx
 
+/-- `face_to_cell` as coded, component `a`, flat in Fortran order: zeros, then
+`cell_flux[:-1 along a, a] += pt[a]·U_a` and `cell_flux[1: along a, a] += (1-pt[a])·U_a` (slice accumulation through the
+index arrays of the two slices) -/
+def faceToCellTable (shape : List Nat) (U : Nat → Rat) (pt : List Rat) (a : Nat) : List Rat :=
+  accumN
+    (accumN (List.replicate (numCells shape) 0) (loCellOf shape a)
+      (fun k => pt.getD a 0 * U (offset shape a + k)) (nfa shape a))
+    (hiCellOf shape a) (fun k => (1 - pt.getD a 0) * U (offset shape a + k)) (nfa shape a)
+
 /-! ### `cell_to_face_average(grid, q, mode)[f]`; `q a c` = the component used for faces of axis `a`
 (the scalar itself, vector component `a`, or tensor diagonal `a,a`), flat cell number `c` -/
 
 inductive AvgMode | arithmetic | harmonic
   deriving DecidableEq, Repr
 
-/-- `scipy.stats.hmean` of two non-negative numbers (`0` as soon as one is `0`) -/
-def hmean2 (x y : Rat) : Rat := if x = 0 ∨ y = 0 then 0 else 2 / (1 / x + 1 / y)
+/-- `scipy.stats.hmean` of two numbers: `NaN` (`none`) as soon as one is negative, `0` as soon as one is `0`,
+`2/(1/x + 1/y)` otherwise -/
+def hmean2 (x y : Rat) : Option Rat :=
+  if x < 0 ∨ y < 0 then none else some (if x = 0 ∨ y = 0 then 0 else 2 / (1 / x + 1 / y))
 
-def cellToFace (shape : List Nat) (mode : AvgMode) (q : Nat → Nat → Rat) (f : Nat) : Rat :=
+/-- `none` = NaN -/
+def cellToFace (shape : List Nat) (mode : AvgMode) (q : Nat → Nat → Rat) (f : Nat) : Option Rat :=
   let a := faceAxis shape f
   let x := q a (conn shape f).1
   let y := q a (conn shape f).2
   match mode with
-  | .arithmetic => (1 / 2 : Rat) * (x + y)
+  | .arithmetic => some ((1 / 2 : Rat) * (x + y))
   | .harmonic => hmean2 x y
 
 /-- how `cell_to_face_average` reads its argument: a scalar field (`ndim == dim`, or a trailing axis of length 1), a
@@ -80,8 +105,18 @@ def selectComp (dim : Nat) (kind : QKind) (arr : Nat → Rat) (a c : Nat) : Rat 
   | .vector => arr (c * dim + a)
   | .tensor => arr ((c * dim + a) * dim + a)
 
+/-- the dispatch of `cell_to_face_average` on `cell_qty.shape`: `trailing` = the axes after the `dim` spatial ones.
+`len(shape) == dim` or a trailing axis of length 1 → scalar (checked first, so in 1-D a trailing `1` is a scalar);
+trailing `dim` → vector; trailing `dim, dim` → tensor; everything else `NotImplementedError` -/
+def kindOf (dim : Nat) (trailing : List Nat) : Except Err QKind :=
+  match trailing with
+  | [] => .ok .scalar
+  | [n] => if n = 1 then .ok .scalar else if n = dim then .ok .vector else .error .notImpl
+  | [n, m] => if n = dim ∧ m = dim then .ok .tensor else .error .notImpl
+  | _ => .error .notImpl
+
 /-- `cell_to_face_average(grid, cell_qty, mode)[f]` on the full (scalar / vector / tensor) cell array -/
-def cellToFaceQ (shape : List Nat) (mode : AvgMode) (kind : QKind) (arr : Nat → Rat) (f : Nat) : Rat :=
+def cellToFaceQ (shape : List Nat) (mode : AvgMode) (kind : QKind) (arr : Nat → Rat) (f : Nat) : Option Rat :=
   cellToFace shape mode (selectComp shape.length kind arr) f
 
 /-! ### tangential reconstruction (`FVTangentialFaceReconstruction`, `FVFullFaceReconstruction`) -/
